@@ -7,8 +7,8 @@ names=${@:-$(ls seeded | grep '^C')}
 for n in $names; do
   P=$(python3 -c "import json;print(json.load(open('seeded/$n/meta.json'))['property'])")
   if [ -n "$(git -C /repo status --porcelain --untracked-files=no)" ]; then echo "$n repo-not-clean"; exit 9; fi
-  if ! git -C /repo apply --check seeded/$n/patch.diff 2>/dev/null; then echo "$n patch-does-not-apply"; continue; fi
-  git -C /repo apply seeded/$n/patch.diff
+  if ! git -C /repo apply --check /verif/seeded/$n/patch.diff 2>/dev/null; then echo "$n patch-does-not-apply"; continue; fi
+  git -C /repo apply /verif/seeded/$n/patch.diff
   s=$(date +%s)
   timeout 1500 ./check $P --tier quick > /tmp/reverify_$n.log 2>&1; rc=$?
   git -C /repo checkout -- .
